@@ -96,11 +96,11 @@ def gen_alt(r, k2=False):
         pred = r.choice(["[1]", "[@x]", "[b]", "[last()]", "[not(@y)]", "[.='t1']", "[2]"])
         return dict(a, text=t + pred, multi=True, pred="pos" if pred in ("[1]", "[2]", "[last()]") else "bool")
     if c < 0.75:
-        lead = r.choice(["a/", "b/", "*/", "d/", "c/", "/", "a/b/", "p:a/", "*[@x]/", "key('ke','v')/"])
+        lead = r.choice(["a/", "b/", "*/", "d/", "//", "/", "a/b/", "p:a/", "*[@x]/", "key('ke','v')/"])
         if lead == "/" and a["attr"]:
             lead = "*/"
         return dict(a, text=lead + t, multi=True, steps=True)
-    lead = r.choice(["a/", "*/", "b/"])     # no '//': the matcher's treatment of '//' is C09's subject (K14, K15, '//a' on the document element)
+    lead = r.choice(["a/", "*/", "//"])     # '//' only as the leading step: '//' inside a pattern is C09's subject (K14, K15)
     pred = r.choice(["[1]", "[@x]", "[last()]"])
     return dict(a, text=lead + t + pred, multi=True, steps=True, pred="pos" if pred != "[@x]" else "bool")
 
